@@ -34,6 +34,22 @@ CLAIMED = {
    text='Every (offset,size) pair x 6 byte-range operations and every starting round 0..11 is executed on five host back ends; TLC validates each recorded call and the 40 canonical state bytes after it against the TLA+ permutation and state algebra.',
    note='Trusted: TLC, spec/AsconPerm.tla (checked against the published ASCON-HASH initial value and all KATs), the driver. State/data values sampled (patterns, walking bits, random); shape space exhaustive.',
    tech='TLA+ spec of the permutation/state algebra + trace validation with TLC on five back-end builds'),
+ 'C14': dict(cat='model_checking', ref='DESIGN.md §6 C14',
+   text='MC_Nonce exhausts the ripple-carry increment on scaled nonces (all 2^16 base-2 and 3^9 base-3 values: Inc = +1 mod B^D) and sessions mixing encryption, successful and failed decryption; the same operator at base 256 judges the real helper for every carry-chain length 0..16, three-packet incremental C sessions (stored nonce logged after every start), and all 12 C++ classes (packet i = C function under N+i; forged and runt packets must not advance the nonce; set_nonce lengths 0..20; set_counter).',
+   note='Trusted: TLC, the specification in spec/*.tla, the drivers in harness/. Input VALUES are sampled; structure is enumerated by class.',
+   tech='TLA+ spec + TLC model checking + trace validation of the real library against the spec'),
+ 'C15': dict(cat='model_checking', ref='DESIGN.md §6 C15',
+   text='MC_Prng exhausts operation sequences on the symbolic instance (forward-secure shape p(Z(p(Z(p(Z(p(Z(x)))))))) after every action, reseed exactly when the scaled limit is reached, every drawn/fed byte occurs in the state, status = health of the draw); with the system source substituted at link time TLC recomputes the complete state evolution of the real generator (40 state bytes, counter, number of source draws, outputs, statuses) over random histories incl. failing draws, storage results, the 16384-byte threshold, NULL-state conveniences.',
+   note='Trusted: TLC, the specification in spec/*.tla, the drivers in harness/. Input VALUES are sampled; structure is enumerated by class.',
+   tech='TLA+ spec + TLC model checking + trace validation of the real library against the spec'),
+ 'C17': dict(cat='model_checking', ref='DESIGN.md §6 C17',
+   text='A translation unit instantiating every documented member/overload of hash, hasha, xof, xofa and the fixed-length templates plus the helper functions must compile against /repo headers (compile failure = violation); each member call is replayed as the sponge object it wraps; the 12 cipher classes are driven through every construction and keying path (default, key, NULL key, set_key full / zero length / NULL / wrong lengths, saved ISAP keys, clear, randomize_key) and judged against the C-level specification of (effective key, nonce).',
+   note='Trusted: TLC, the specification in spec/*.tla, the drivers in harness/. Input VALUES are sampled; structure is enumerated by class.',
+   tech='TLA+ spec + TLC model checking + trace validation of the real library against the spec'),
+ 'C20': dict(cat='model_checking', ref='DESIGN.md §6 C20',
+   text='MC_Hex: decoder automaton = documented function for all strings up to length 4 over a class alphabet x space 0..3, no write at index >= space, round trip; MC_ByteArray: the copy-on-write heap refines independent sequences for 3 variables x 4 operations, with the two historical defects kept as negative configurations that TLC must refute; the real codec is run on all 256 characters, class strings and random round trips, the real ASCON_NO_STL class on random walks of 40 operations over up to 4 aliased variables with the TLA+ sequence model as oracle.',
+   note='Trusted: TLC, the specification in spec/*.tla, the drivers in harness/. Input VALUES are sampled; structure is enumerated by class.',
+   tech='TLA+ spec + TLC model checking + trace validation of the real library against the spec'),
 }
 NOT_YET = {}
 ALL = ['C%02d' % i for i in range(1, 21)]
